@@ -34,6 +34,9 @@ func (f *frame) child() *frame {
 const maxPaths = 20000
 
 func (x *Exec) stmts(list []ast.Stmt, st *State, fr *frame, k func(*State)) {
+	if st.dead {
+		return
+	}
 	if len(list) == 0 {
 		k(st)
 		return
@@ -43,6 +46,9 @@ func (x *Exec) stmts(list []ast.Stmt, st *State, fr *frame, k func(*State)) {
 
 func (x *Exec) branch(st *State, cond string, tag string) *State {
 	n := st.clone()
+	if cond == "false" {
+		n.dead = true
+	}
 	n.assume(cond)
 	if tag != "" {
 		n.tag(tag)
@@ -55,6 +61,9 @@ func (x *Exec) branch(st *State, cond string, tag string) *State {
 }
 
 func (x *Exec) stmt(s ast.Stmt, st *State, fr *frame, k func(*State)) {
+	if st.dead {
+		return // syntactically infeasible path
+	}
 	switch n := s.(type) {
 	case nil:
 		k(st)
@@ -107,7 +116,7 @@ func (x *Exec) stmt(s ast.Stmt, st *State, fr *frame, k func(*State)) {
 		if n.Tok == token.DEC {
 			op = "-"
 		}
-		r := Term{S: app(op, v.S, "1"), Sort: "Int", T: v.T}
+		r := Term{S: arith(op, v.S, "1"), Sort: "Int", T: v.T}
 		x.checkRange(st, r, n)
 		x.store(n.X, r, st)
 		k(st)
@@ -284,11 +293,11 @@ func (x *Exec) assign(n *ast.AssignStmt, st *State) {
 			if a.Sort == "Str" {
 				x.unsupported(n, "string +=")
 			}
-			r = Term{S: app("+", a.S, b.S), Sort: "Int", T: a.T}
+			r = Term{S: arith("+", a.S, b.S), Sort: "Int", T: a.T}
 		case token.SUB:
-			r = Term{S: app("-", a.S, b.S), Sort: "Int", T: a.T}
+			r = Term{S: arith("-", a.S, b.S), Sort: "Int", T: a.T}
 		case token.MUL:
-			r = Term{S: app("*", a.S, b.S), Sort: "Int", T: a.T}
+			r = Term{S: arith("*", a.S, b.S), Sort: "Int", T: a.T}
 		case token.QUO:
 			x.oblige(st, "div0", "", n, not(app("=", b.S, "0")))
 			r = Term{S: goDiv(a.S, b.S), Sort: "Int", T: a.T}
